@@ -83,7 +83,7 @@ def gen_case(rng, stream):
         supplies.insert(rng.randint(0, len(supplies)), [n, str(L.rnd_dec(rng, -2, 6, 5)), False])
     cls = rng.choice(HF_CLASSES)
     if stream == "boundary":
-        cls = rng.choice(["at95", "at1", "half", "mid", "deep", "tiny"])
+        cls = rng.choice(["at95", "at95", "at95", "at1", "at1", "half", "mid", "deep", "tiny"])
     case = Case(path, toks, supplies, [], {n: "7" for n in list(toks)[:2]}, rp_over)
     # weighted liquidation threshold, exactly
     wlt = sum((F(D(b)) * F(D(toks[n]["li"])) * F(D(toks[n]["p"])) * F(rp.loc[n].reserveLiquidationThreshold) for n, b, c in supplies if c), F(0))
